@@ -82,6 +82,7 @@ QUICK_MENU = [
     (("A",), True, 0, None, "M", None),          # classes and metaclass together
     ((), True, 0, None, None, "det_rank"),        # a detector that raises TypeError for D
     ((), True, 0, "__origin__", None, None),      # matches only the non-class target L
+    ((), True, 2, None, None, "det_lazy"),        # registers a converter for A while resolve(B) scans
 ]
 MID_MENU = QUICK_MENU + [
     (("A",), True, 1, None, "M", None),
@@ -105,7 +106,22 @@ def det_rank(c):
     return getattr(c, "__rank__", 0) > 0        # None > 0 raises TypeError (class D)
 
 
-DETECTORS = {"det_CD": det_CD, "det_rank": det_rank}
+_CUR = [None]       # the system under replay (for the detector with a side effect)
+LAZY_ENTRY = (("A",), True, 0, None, None, None)
+
+
+def det_lazy(c):
+    """matches nothing, but the first time it is asked about class B it registers a converter for A and its
+    subclasses -- a registration that completes while resolve() is in the middle of its scan"""
+    s = _CUR[0]
+    if s is not None and c is CLS["B"] and not s.lazy_fired:
+        s.lazy_fired = True
+        s.lazy_now = True
+        s.register(LAZY_ENTRY)
+    return False
+
+
+DETECTORS = {"det_CD": det_CD, "det_rank": det_rank, "det_lazy": det_lazy}
 
 
 def entry_matches(entry, cls):
@@ -117,6 +133,8 @@ def entry_matches(entry, cls):
 
 def _entry_matches(entry, cls):
     classes, allow, prio, attr, meta, det = entry
+    if det == "det_lazy":
+        return False            # its side effect is modelled by replay()
     if det:
         return DETECTORS[det](cls)
     if classes:
@@ -172,6 +190,7 @@ def shards(tier):
     return out
 
 
+REREG_ENTRIES = [(("B",), True, 0, None, None, None), (("D",), False, 1, None, None, None), (("A",), True, 1, None, None, None)]
 MENUS = {"quick": QUICK_MENU, "mid": MID_MENU, "full": FULL_MENU}
 
 
@@ -180,7 +199,10 @@ def op_list(menu, sysname="fresh"):
     # for generic aliases, which the model does not know)
     targets = [t for t in RESOLVE_TARGETS if not (sysname == "real" and t == "L")]
     menu = [e for e in menu if not (sysname == "real" and e[3] == "__origin__")]
-    return [("reg", e) for e in menu] + [("res", t) for t in targets]
+    # "rereg": the function object of registration #0 registered again under other criteria (a converter may serve
+    # several registrations; none of them may disappear)
+    rereg = [e for e in menu if e in REREG_ENTRIES]
+    return [("reg", e) for e in menu] + [("rereg", e) for e in rereg] + [("res", t) for t in targets]
 
 
 # ------------------------------------------------------------------ systems under test
@@ -191,14 +213,17 @@ class FreshSystem:
     def __init__(self):
         self.reg = TypeRegistry("verif", cache=True)
         self.funcs = []
+        self.lazy_fired = self.lazy_now = False
 
-    def register(self, entry):
+    def register(self, entry, reuse=False):
         classes, allow, prio, attr, meta, det = entry
         idx = len(self.funcs)
 
         def f(*a, __idx=idx):
             return __idx
         f.idx = idx
+        if reuse and self.funcs:
+            f = self.funcs[0]
         kw = dict(allow_subclasses=allow, priority=prio)
         if attr:
             kw["attr"] = attr
@@ -228,8 +253,10 @@ class RealSystem:
         self.reg = TypeTransformer.registry
         self.snap = (list(self.reg._registry), dict(self.reg._cache))
         self.n = 0
+        self.first = None
+        self.lazy_fired = self.lazy_now = False
 
-    def register(self, entry):
+    def register(self, entry, reuse=False):
         classes, allow, prio, attr, meta, det = entry
         idx = self.n
         self.n += 1
@@ -237,6 +264,10 @@ class RealSystem:
         def f(transformer, data, t, __idx=idx):
             return ("converted-by", __idx)
         f.idx = idx
+        if reuse and self.first is not None:
+            f = self.first
+        if self.first is None:
+            self.first = f
         kw = dict(allow_subclasses=allow, priority=prio)
         if attr:
             kw["attr"] = attr
@@ -268,20 +299,44 @@ class RealSystem:
 def replay(system_cls, ops):
     """Replays a history; returns (system, [(op_index, target, expected, actual)...] for resolves)."""
     s = system_cls()
+    _CUR[0] = s
     regs = []
+    fids = []        # registration index -> identity of its function (the index of the registration that created it)
     obs = []
-    for i, (kind, arg) in enumerate(ops):
-        if kind == "reg":
-            s.register(arg)
-            regs.append((len(regs), arg))
-        else:
-            exp = model_resolve(regs, CLS[arg])
-            act = s.resolve(arg)
-            obs.append((i, arg, exp, act))
+    try:
+        for i, (kind, arg) in enumerate(ops):
+            if kind in ("reg", "rereg"):
+                reuse = kind == "rereg"
+                s.register(arg, reuse=reuse)
+                fids.append(0 if (reuse and regs) else len(regs))
+                regs.append((len(regs), arg))
+            else:
+                exp = model_resolve(regs, CLS[arg])
+                exp = None if exp is None else fids[exp]
+                s.lazy_now = False
+                act = s.resolve(arg)
+                if s.lazy_now:
+                    # a registration was made by a detector during this scan: this answer may be either one (not
+                    # judged); every later resolve has to know the new registration
+                    fids.append(len(regs))
+                    regs.append((len(regs), LAZY_ENTRY))
+                    exp = act = "unjudged"
+                obs.append((i, arg, exp, act))
+    finally:
+        _CUR[0] = None
+    s.fids = fids
     return s, regs, obs
 
 
 def make_script(sysname, ops):
+    if any(k == "rereg" or (k == "reg" and a[5] == "det_lazy") for k, a in ops):
+        # shared function objects / the detector with a side effect: replayed through this module
+        return "\n".join([
+            "import sys", "sys.path.insert(0, '/verif')", "from utmc.props import c16", f"ops = {ops!r}",
+            f"s, regs, obs = c16.replay(c16.{'FreshSystem' if sysname == 'fresh' else 'RealSystem'}, ops)", "s.close()",
+            "for line in c16.fmt_ops(ops): print(line)",
+            "for i, target, exp, act in obs: print('resolve(%s): expected the function of registration %r, got %r' % (target, exp, act))",
+            "sys.exit(1 if any(o[2] != o[3] for o in obs) else 0)"]) + "\n"
     lines = ["import sys, warnings; warnings.simplefilter('ignore')",
              "sys.path.insert(0, %r)" % __import__("os").environ.get("UTYPE_SRC", "/repo"),
              "import utype", "from utype.utils.base import TypeRegistry",
@@ -323,13 +378,13 @@ def make_script(sysname, ops):
 def fmt_ops(ops):
     out = []
     for kind, arg in ops:
-        if kind == "reg":
+        if kind in ("reg", "rereg"):
             classes, allow, prio, attr, meta, det = arg
-            out.append("register(%s%s%s%s%s%s)" % (",".join(classes), "" if allow else ",exact",
+            out.append(("register" if kind == "reg" else "register-first-function-again") + "(%s%s%s%s%s%s)" % (",".join(classes), "" if allow else ",exact",
                                                   f",prio={prio}" if prio else "",
                                                   f",attr={attr}" if attr else "",
                                                   f",meta={meta}" if meta else "",
-                                                  f",detector" if det else ""))
+                                                  f",detector={det}" if det else ""))
         else:
             out.append(f"resolve({arg})")
     return out
@@ -347,7 +402,7 @@ def run_shard(shard, tier):
         ops = [ops_all[i] for i in hist]
         s, regs, obs = replay(system_cls, ops)
         try:
-            state = (sysname, tuple(e for _, e in regs), s.cached())
+            state = (sysname, tuple(e for _, e in regs), tuple(s.fids), s.lazy_fired, s.cached())
         finally:
             s.close()
         acc.transitions += 1
